@@ -10,6 +10,7 @@ import EpgVerif.Model.RF
 import EpgVerif.Model.Guards
 import EpgVerif.Model.ND
 import EpgVerif.Model.Diffusion
+import EpgVerif.Model.Imaging
 /-
   Line-protocol driver over the executable model at `K := CF` (DESIGN Appendix A).
   One request per line; floats travel as the decimal of their IEEE-754 bits.
@@ -431,6 +432,16 @@ def step (d : DState) (line : String) : DState × List String :=
         | [a, b, c] => let v := #[cOfTok a, cOfTok b, cOfTok c]; some (fun n => v.getD n 0)
         | _ => none
       ({ d with nds := Diff5.diffuse dim.toNat! wave (cOfTok tau) dv sh d.nds }, [])
+  | ["nimg", kd, pd, k0, k1, k2, tv, x0, x1, x2, box, size, mre, mim, ph] =>
+      let kv : Array Float := #[fOfTok k0, fOfTok k1, fOfTok k2]
+      let xs : Array Float := #[fOfTok x0, fOfTok x1, fOfTok x2]
+      let wave : K4 → Nat → CF := fun k n =>
+        ⟨(match n with | 0 => Float.ofInt k.x | 1 => Float.ofInt k.y | _ => Float.ofInt k.z) * kv.getD n 0, 0⟩
+      let time : K4 → CF := fun k => ⟨Float.ofInt k.t * fOfTok tv, 0⟩
+      let o : Img.Opts CF := { box := box == "1", size := cOfTok size, modRe := optC mre, modIm := optC mim, phase := optC ph }
+      let v := Img.imaging (fun (y : CF) => y.re == 0 && y.im == 0) (fun (y : CF) => ⟨y.re.abs, 0⟩) o kd.toNat! pd.toNat!
+        wave time (fun n => ⟨xs.getD n 0, 0⟩) d.nds
+      (d, [s!"img {bits v.re} {bits v.im}"])
   | ["ndump"] => (d, [dumpND d.nds])
   | ["nsynth", k0, k1, k2, x0, x1, x2, tv, w] =>
       let χ := posCharF #[fOfTok k0, fOfTok k1, fOfTok k2] #[fOfTok x0, fOfTok x1, fOfTok x2] (fOfTok tv) (fOfTok w)
